@@ -120,3 +120,48 @@ func init() {
 		},
 	}
 }
+
+func init() {
+	Specs["C02"] = Spec{
+		Gen: func(seed uint64, tier string) *Case {
+			return GenSeq(seed, "C02", SeqParams{MinTxns: 10, MaxTxns: 120, Small: true, Restarts: true})
+		},
+		Check: func(res *RunResult) *Eval {
+			ev := newEval()
+			commonEval(res, ev, false, false)
+			// Open must not fail on a cleanly closed directory
+			if res.Fatal != "" && (fatalClass(res.Fatal) == "open-panic" || fatalClass(res.Fatal) == "open-error") {
+				ev.Mine = append(ev.Mine, Violation{Oracle: "reopen", Class: fatalClass(res.Fatal) + ":" + panicSite(res.FatalStk), Msg: "Open after a clean Close: " + res.Fatal})
+			}
+			vs, m := CheckSeq(res.Case, res.Hist)
+			ev.Evaluations = m.Reads
+			for _, v := range vs {
+				if v.Oracle == "m-seq" && readClasses[v.Class] {
+					ev.Mine = append(ev.Mine, v)
+				} else {
+					ev.Foreign[v.Oracle+":"+v.Class]++
+				}
+			}
+			seqProbes(res, ev)
+			ev.Nontrivial = res.NTables > 0 && m.Reads > 0 && res.Probes["restart"] > 0
+			ev.Summary = fmt.Sprintf("m-seq across %d clean restarts: %d txns, %d reads checked, %d mismatches", res.Probes["restart"], m.Txns, m.Reads, len(ev.Mine))
+			return ev
+		},
+	}
+	// DEV: development aid that owns every verdict of the sequential profile.
+	Specs["DEV"] = Spec{
+		Gen: func(seed uint64, tier string) *Case {
+			return GenSeq(seed, "DEV", SeqParams{MinTxns: 10, MaxTxns: 150, Small: true, Restarts: tier == "restarts"})
+		},
+		Check: func(res *RunResult) *Eval {
+			ev := newEval()
+			commonEval(res, ev, true, true)
+			vs, m := CheckSeq(res.Case, res.Hist)
+			ev.Evaluations = m.Reads
+			ev.Mine = append(ev.Mine, vs...)
+			seqProbes(res, ev)
+			ev.Nontrivial = res.NTables > 0
+			return ev
+		},
+	}
+}
